@@ -6,7 +6,7 @@ set -u
 LOG=$1; shift
 EXTRA="$*"
 : > $LOG
-for D in /verif/benign/C*/; do
+for D in /verif/benign/C*-A/ /verif/benign/C*-B/; do
   id=$(basename $D); P=${id%%-*}
   [ -f $D/patch.diff ] || continue
   cd /repo; git diff --quiet || { echo "/repo dirty" | tee -a $LOG; exit 2; }
